@@ -1,5 +1,7 @@
 import FiberModel.DriverUtil
 import FiberModel.C01.Spec
+import FiberModel.C01.Known
+import FiberModel.Generated.C01Facts
 /-
 Driver for C01. Case fields (after the id):  cfg  regs  paths  method  obs
 (see harness/cmd/c01/main.go for the grammar). The single-route decisions `mb` shipped in the
@@ -9,10 +11,10 @@ and compares it with what the real dispatcher did.
 -/
 open B DriverUtil C01
 
-def methodNames : List String :=
-  ["GET", "HEAD", "POST", "PUT", "DELETE", "CONNECT", "OPTIONS", "TRACE", "PATCH"]
+/-- `DefaultMethods` and `maxDetectionPaths` as re-extracted from /repo by translator/c01 -/
+def methodNames : List String := C01.Facts.methods
 
-def maxDet : Nat := 3
+def maxDet : Nat := C01.Facts.maxDetectionPaths
 
 def methodInt (s : String) : Option Nat := methodNames.idxOf? s
 
@@ -53,15 +55,17 @@ def parseReg (cfg : Cfg) (npaths : Nat) (s : String) : Option RegIn :=
     let path ← fromHex p
     let handlers ← (hs.splitOn ".").mapM (parseHandler npaths)
     if handlers.isEmpty then none
-    let methods ← (if k == "A" then (if ms == "-" then none else (ms.splitOn ".").mapM methodInt)
+    let methods ← (if k == "A" || (k == "R" && ms != "-") then
+                     (if ms == "-" then none else (ms.splitOn ".").mapM methodInt)
                    else if ms == "-" then some allMethods else none)
     if methods.isEmpty || methods.eraseDups.length != methods.length then none
     let joined ← (match k with
-      | "G" => if chain.isEmpty then none else some (groupPrefix chain)
+      | "G" | "R" => if chain.isEmpty then none else some (groupPrefix chain)
       | "U" | "A" | "L" => some (if chain.isEmpty then path else getGroupPath (groupPrefix chain) path)
       | _ => none)
     let raw := rawPath joined
-    let use := k == "U" || k == "G"
+    -- register.go: `Registering.All` registers with methodUse
+    let use := k == "U" || k == "G" || (k == "R" && ms == "-")
     pure { kind := k, reg := { methods := methods, use := use, raw := raw,
                                key := treeKey maxDet (prettyPath cfg raw), handlers := handlers } }
   | _ => none
@@ -79,6 +83,8 @@ structure ObsIn where
   s : String
   a : String
   ps : String
+  ph : String
+  rp : String
   tr : String
   mb : List (List Bool)
   ab : List (List Bool)
@@ -90,7 +96,7 @@ def parseObs (s : String) : Option ObsIn := do
   let kv := (s.splitOn ";").filterMap fun p => match p.splitOn "=" with
     | [k, v] => some (k, v) | _ => none
   let get (k : String) : Option String := (kv.find? (·.1 == k)).map (·.2)
-  pure { t := ← get "t", s := ← get "s", a := ← get "a", ps := ← get "ps", tr := ← get "tr",
+  pure { t := ← get "t", s := ← get "s", a := ← get "a", ps := ← get "ps", ph := ← get "ph", rp := ← get "rp", tr := ← get "tr",
          mb := parseBits (← get "mb"), ab := parseBits (← get "ab"), mbRaw := ← get "mb" }
 
 def pathOK (p : Bytes) : Bool :=
@@ -135,8 +141,13 @@ def handleCase (f : List String) : Except String Verdict := do
         !(o.mb.all (·.length == np)) || !(o.ab.all (·.length == np)) then
       throw "observation: bit matrix shape"
     let pathBytes (i : Nat) : Bytes := ctxPath cfg (paths.getD i [])
+    -- the real Route.Path of every registration (public field): the spec oracle and the matcher table are
+    -- keyed by it, the model by its own `rawPath`/`getGroupPath`; a difference shows as M=DIFF
+    let some realRaw := dotHex o.rp | throw "observation: rp"
+    if realRaw.length != regs.length then throw "observation: rp length"
+    let regsSpec : List (Reg Nat) := (regs.zip realRaw).map fun x => { x.1 with raw := x.2 }
     -- single-route decisions of the real matcher, keyed by (Route.Path, use)
-    let rows := regs.zip o.mb
+    let rows := regsSpec.zip o.mb
     let M (raw : Bytes) (use : Bool) (p : Nat) : Bool :=
       match rows.find? (fun x => x.1.raw == raw && x.1.use == use) with
       | some x => x.2.getD p false
@@ -155,7 +166,7 @@ def handleCase (f : List String) : Except String Verdict := do
     let mo := match dispatchS E S false fuel m 0 with
       | .ok ob => ob
       | .error _ => { trace := [], fin := .outOfFuel }
-    let looped := mo.fin == .outOfFuel || mo.trace.length > 1000
+    let looped := mo.fin == .outOfFuel || mo.trace.length ≥ 1000
     let (ms, ma) := renderEnd mo.fin
     let modelAb := regs.map fun g =>
       let g1 : Reg Nat := { g with handlers := [{ hid := 1, script := .stop }] }
@@ -165,11 +176,12 @@ def handleCase (f : List String) : Except String Verdict := do
         | .ok ob => !ob.trace.isEmpty
         | .error _ => false
     let modelPs := hexDot ((List.range np).map pathBytes)
+    let modelPh := ".".intercalate ((List.range np).map fun j => toString (E.pkey j))
     let modelObs :=
-      if looped then s!"t=loop;s=loop;a=-;ps={modelPs};tr={renderTree (S.tree m)};mb={o.mbRaw};ab={renderBits modelAb}"
-      else s!"t={renderTrace mo.trace};s={ms};a={ma};ps={modelPs};tr={renderTree (S.tree m)};mb={o.mbRaw};ab={renderBits modelAb}"
+      if looped then s!"t=loop;s=loop;a=-;ps={modelPs};ph={modelPh};rp={hexDot (regs.map (·.raw))};tr={renderTree (S.tree m)};mb={o.mbRaw};ab={renderBits modelAb}"
+      else s!"t={renderTrace mo.trace};s={ms};a={ma};ps={modelPs};ph={modelPh};rp={hexDot (regs.map (·.raw))};tr={renderTree (S.tree m)};mb={o.mbRaw};ab={renderBits modelAb}"
     -- spec oracle on the implementation's observation
-    let want := linear E regs m 0
+    let want := linear E regsSpec m 0
     let (ws, wa) := renderEnd want.fin
     let aloneBad : Option String :=
       ((List.range regs.length).flatMap fun i => (List.range np).map fun j => (i, j)).findSome? fun (i, j) =>
@@ -178,20 +190,24 @@ def handleCase (f : List String) : Except String Verdict := do
         else none
     let spec : Option String :=
       if !consistent then some "match-depends-on-context"
-      else if o.t == "loop" then none
+      else if o.t == "loop" then some s!"terminates want t={renderTrace want.trace} s={ws}"
       else if o.t != renderTrace want.trace then some s!"first-match want t={renderTrace want.trace} s={ws}"
       else if o.s != ws then some s!"status want s={ws}"
       else if o.a != wa then some s!"allow want a={wa}"
       else aloneBad
-    -- known-finding regions (instrumented model run)
-    let known : Option String := match dispatchS E S true fuel m 0 with
+    -- known-finding regions: the instrumented run reaches the recorded situation AND the model of the
+    -- unchanged code itself deviates from the property on this input (Known.lean)
+    let reach : Option String := match dispatchS E S true fuel m 0 with
       | .error .k1 => some "K1"
       | .error .k2 => some "K2"
       | .ok _ => none
+    let known : Option String :=
+      if Known.K1 E regs m 0 then some "K1" else if Known.K2 E regs m 0 then some "K2" else none
     -- tags
     let nmatch := (regs.zip o.mb).countP fun x => x.1.methods.contains m && x.2.headD false
     let det := detectionPath cfg (pathBytes 0)
     let cand := candidates E S m 0
+    let allH := (List.range methodNames.length).flatMap fun i => (S.stack i).flatMap (·.handlers)
     let tags : List String :=
       [s!"s{ws}"] ++
       (if nmatch ≥ 2 then ["nt-multi"] else []) ++
@@ -203,7 +219,13 @@ def handleCase (f : List String) : Except String Verdict := do
       (if regs.any (fun g => g.handlers.any fun h => match h.script with | .setMethod _ => true | _ => false)
         then ["has-setmethod"] else []) ++
       (if ws == "405" then ["nt-405"] else []) ++
+      (if !want.trace.isEmpty then ["ran"] else ["empty-trace"]) ++
+      (let ran := allH.filter fun h => mo.trace.contains h.hid
+       (if ran.any (fun h => match h.script with | .setPath _ => true | _ => false) then ["nt-setpath-run"] else []) ++
+       (if ran.any (fun h => match h.script with | .setMethod _ => true | _ => false) then ["setmethod-run"] else []) ++
+       (if ran.any (·.seam) then ["nt-merged-run"] else [])) ++
       (if looped then ["loop"] else []) ++
+      (match reach with | some k => [s!"reach-{k}"] | none => []) ++
       (match known with | some k => [s!"region-{k}"] | none => [])
     pure { id := id, modelObs := modelObs, implObs := implObs, spec := spec, known := known, tags := tags }
   | _ => throw s!"outside-domain: expected 6 fields, got {f.length}"
